@@ -227,7 +227,9 @@ def generate(repo):
             if not isinstance(x, int) or isinstance(x, bool):
                 raise RuntimeError("%s has a non-integer key %r" % (k, x))
     consts = ["MSG_DISCONNECT", "MSG_IGNORE", "MSG_UNIMPLEMENTED", "MSG_DEBUG", "MSG_GLOBAL_REQUEST",
-              "MSG_CHANNEL_OPEN", "HIGHEST_USERAUTH_MESSAGE_ID"]
+              "MSG_CHANNEL_OPEN", "HIGHEST_USERAUTH_MESSAGE_ID", "MSG_SERVICE_REQUEST", "MSG_SERVICE_ACCEPT",
+              "MSG_USERAUTH_REQUEST", "MSG_USERAUTH_FAILURE", "MSG_USERAUTH_SUCCESS", "MSG_USERAUTH_BANNER",
+              "MSG_USERAUTH_INFO_REQUEST", "MSG_USERAUTH_INFO_RESPONSE"]
     out = ["(* GENERATED by gen/c12.py from the working tree - do not edit *)",
            "From Coq Require Import ZArith List.", "Import ListNotations.", "Open Scope Z_scope.", ""]
     for k in sorted(tabs):
